@@ -31,6 +31,10 @@ def child_main(spec_json: str, backend: str, mw: str, storage_dir: str):
     d = json.loads(spec_json)
     phases = d['phases'] if 'phases' in d else [{'deps': d['deps'], 'types': d['types'], 'mw': mw, 'labels': None}]
     total = 0
+    if d.get('shared_backend'):
+        # one runner-backend object serves every Lab of the sequence
+        from labtech.runners import ForkRunnerBackend, SpawnRunnerBackend
+        backend = {'fork': ForkRunnerBackend, 'spawn': SpawnRunnerBackend}[backend]()
     for ph in phases:
         spec = mk_spec(ph['deps'], types=ph['types'], labels=ph.get('labels'))
         built = Built(spec)
@@ -180,7 +184,8 @@ def barrier_case(args):
 def barrier_sequence_case(args):
     """Several Labs with different max_workers used one after the other in ONE caller process
     (same backend): each run must respect its own limit."""
-    _, backend, mws = args
+    _, backend, mws = args[:3]
+    shared = len(args) > 3 and args[3] == 'shared'
     silence_labtech()
     n = 4
     phases = [{'deps': [[] for _ in range(n)], 'types': ['TA'] * n, 'mw': mw, 'labels': [100 * i + j for j in range(n)]} for i, mw in enumerate(mws)]
@@ -190,8 +195,8 @@ def barrier_sequence_case(args):
     wf = os.path.join(tmp, 'world.log')
     open(wf, 'w').close()
     viols = []
-    d = f'[real {backend} backend] Labs with max_workers={list(mws)} used one after the other in one process'
-    proc = subprocess.Popen([sys.executable, '-m', 'verif_lt.e4b', json.dumps({'phases': phases}), backend, 'x', os.path.join(tmp, 'st')],
+    d = f'[real {backend} backend] Labs with max_workers={list(mws)} used one after the other in one process' + (' (one shared backend object)' if shared else '')
+    proc = subprocess.Popen([sys.executable, '-m', 'verif_lt.e4b', json.dumps({'phases': phases, 'shared_backend': shared}), backend, 'x', os.path.join(tmp, 'st')],
                             env=py_env(3, VERIF_WORLD_FILE=wf, VERIF_BARRIER_DIR=bd, VERIF_EPOCH=1),
                             stdout=open(os.path.join(tmp, 'out'), 'wb'), stderr=open(os.path.join(tmp, 'err'), 'wb'),
                             stdin=subprocess.DEVNULL, start_new_session=True)
@@ -273,6 +278,8 @@ def cases(tier: str):
     for be in ('fork', 'spawn'):
         out.append((big, ('TA',) * (ncpu + 3), be, None, 'asc'))
         out.append(('sequence', be, (3, 1, 2)))
+    out.append(('sequence', 'fork', (1, 3), 'shared'))
+    out.append(('sequence', 'spawn', (2, 1), 'shared'))
     # an explicit max_workers above the number of cores must be honoured too
     out.append((((),) * (ncpu + 2), ('TA',) * (ncpu + 2), 'fork', ncpu + 2, 'asc'))
     return out
